@@ -13,6 +13,8 @@ import Aqv.Lemmas.LogFilterQuery
 import Aqv.Lemmas.LogFilterCompress
 import Aqv.Lemmas.LogFilterIndexer
 import Aqv.Lemmas.MatcherPipeline
+import Aqv.Lemmas.HashMemo
+import Aqv.Lemmas.LogFilterColumn
 import Aqv.Gen.Bloom
 namespace Aqv.Props.C16
 open Aqv Aqv.LogFilter
@@ -371,6 +373,34 @@ theorem sections_emitted_in_order (vec : Nat → Nat → Bytes) (size : Nat) (gr
 -- non-vacuity: sessions have reachable states beyond the initial one (here: after `run` fed section 0 into the single stage).
 example : ∃ σ, Reach (fun _ _ => []) 16 (initSess [[(1, 2, 3)]] [0, 1]) σ ∧ σ.source = [1] :=
   ⟨_, Reach.step _ _ Reach.refl (Step.feedStage _ 0 [1] ⟨[(1, 2, 3)], [], []⟩ [] rfl rfl), rfl⟩
+
+/-! ## 2d. helpers the model driver relies on -/
+
+/-- The driver's memoised hash is the hash: a table built by `memo` (from the empty table, over any item lists, in any number of
+    rounds) never changes a value — `mkH K tbl = K` for every hash function `K` (the driver takes Keccak-256) — and it is effective:
+    every listed item is answered from the table. -/
+theorem memoised_hash_is_the_hash (K : Bytes → Bytes) (pool items : List Bytes) :
+    HashMemo.mkH K (HashMemo.memo K (HashMemo.memo K [] pool) items) = K ∧
+    ∀ b, b ∈ pool ∨ b ∈ items → ((HashMemo.memo K (HashMemo.memo K [] pool) items).lookup b).isSome := by
+  have h0 : HashMemo.TableOK K [] := fun p hp => by cases hp
+  refine ⟨HashMemo.mkH_eq K _ (HashMemo.memo_ok K _ items (HashMemo.memo_ok K [] pool h0)), ?_⟩
+  intro b hb
+  rcases hb with hb | hb
+  · exact HashMemo.memo_hit K _ items b (Or.inr (HashMemo.memo_hit K [] pool b (Or.inl hb)))
+  · exact HashMemo.memo_hit K _ items b (Or.inl hb)
+
+example : HashMemo.mkH (fun b => b ++ [7]) (HashMemo.memo (fun b => b ++ [7]) [] [[1], [2], [1]]) [2] = [2, 7] := by decide
+
+/-- The column the driver accepts as an alternative generator answer (`specColumn`) IS, byte for byte, the bit vector `Bitset(i)` of a
+    filled generator — so accepting it as "spec-ok" never accepts a wrong vector. -/
+theorem specColumn_is_bitset (size : Nat) (h8 : size % 8 = 0) (h2048 : 2048 ≤ size) (blooms : List Bytes)
+    (hlen : blooms.length = size) (h256 : ∀ b ∈ blooms, b.length = 256) (i : Nat) (hi : i < 2048) :
+    ∃ vs, generateSection size blooms = .ok vs ∧ vs.getD i [] = specColumn blooms size i := by
+  obtain ⟨vs, hgen, _, _⟩ := generateSection_spec size h8 h2048 blooms hlen
+  exact ⟨vs, hgen, bitset_eq_specColumn size h8 h2048 blooms hlen h256 vs hgen i hi⟩
+
+-- non-vacuity: bit 9 of the second of 16 blooms (integer 2^9) gives the MSB-first column 0x40 0x00.
+example : specColumn ([[], [2, 0]] ++ List.replicate 14 []) 16 9 = [0x40, 0x00] := by decide
 
 /-! ## 3. log queries are exact -/
 
